@@ -4,7 +4,7 @@ import re
 from ..analysis import (Branches, Origins, blocks_separate, cfg_cycles, edge_dominates, edges_dominate, fmt_terms,
                         reach_avoiding, term_mentions)
 from ..charclass import CharFlow, ISet, chars, rng
-from ..parsing import (ALL_TOKENS, AST, P, TOKEN, TokenPaths, first_discr_switch, is_consumer, peek_eq_switch,
+from ..parsing import (peek_is_switch, ALL_TOKENS, AST, P, TOKEN, TokenPaths, first_discr_switch, is_consumer, peek_eq_switch,
                        promoted_token, region, region_aggs, region_calls, token_of_terms)
 
 fs = frozenset
@@ -519,7 +519,8 @@ def check_dispatch(ctx, lib):
             ctx.check(ok, rule, "nud:quoted-not-callable", "a quoted identifier followed by '(' is an error", b.span)
         if ve0 and "Lbracket" in ve0["edges"]:
             arm = only_via(b, (blk0, ve0["edges"]["Lbracket"]))
-            sw = [(blk, t[1]) for blk, t in tp.tests.items() if t[0] == "peek-discr" and blk in arm]
+            # the dispatch on the token after '[' (single-kind tests such as matches!(peek(1), Rbracket) are guards, not the dispatch)
+            sw = [(blk, t[1]) for blk, t in tp.tests.items() if t[0] == "peek-discr" and blk in arm and len(t[1]["edges"]) > 1]
             ok = len(sw) == 1
             if ok:
                 blk, ve = sw[0]
@@ -533,7 +534,7 @@ def check_dispatch(ctx, lib):
                     # `*` is a list wildcard only when followed by ']' (lookahead 1)
                     star_guard = False
                     for sb, sw in br.switches():
-                        pe = peek_eq_switch(lib, b, br, sb)
+                        pe = peek_eq_switch(lib, b, br, sb) or peek_is_switch(b, br, sb)
                         if pe and pe[0] == "Rbracket" and pe[1] == 1 and sb in reach_avoiding(b, ve["edges"]["Star"]):
                             wi = [bb for bb, t in b.calls() if t["callee"] == P + "parse_wildcard_index"]
                             ml = [bb for bb, t in b.calls() if t["callee"] == P + "parse_multi_list"]
